@@ -331,7 +331,9 @@ def tableGet (t : Table) (s d : Np) : Option Route :=
 /-- FullZone::add_route; `none` = one of the "already exists" assertions -/
 def fullAddRoute (recursive : Bool) (t : Table) (src dst : Np) (gwSrc gwDst : Option Np) (links : List Lk)
     (symmetrical : Bool) : Option Table :=
-  if (tableGet t src dst).isSome then none
+  -- new_extended_route: xbt_enforce(hierarchy != recursive || (gw_src && gw_dst))
+  if recursive && (gwSrc.isNone || gwDst.isNone) then none
+  else if (tableGet t src dst).isSome then none
   else
     let t1 := ((src, dst), newExtendedRoute recursive gwSrc gwDst links true) :: t
     if symmetrical && src ≠ dst then
